@@ -33,6 +33,7 @@ pub fn all() -> Vec<Entry> {
         Entry { scn: &c07::C07Prometheus, quick_runs: 12_000, thorough_runs: 1_000_000 },
         Entry { scn: &c12::C12Recency, quick_runs: 60_000, thorough_runs: 3_000_000 },
         Entry { scn: &c12::C12PromIdle, quick_runs: 30_000, thorough_runs: 2_000_000 },
+        Entry { scn: &c12::C12RecencyMt, quick_runs: 200_000, thorough_runs: 4_000_000 },
         Entry { scn: &c15::C15Windows, quick_runs: 40_000, thorough_runs: 3_000_000 },
         Entry { scn: &c09::C09Writer, quick_runs: 60_000, thorough_runs: 3_000_000 },
         Entry { scn: &c10::C10Flush, quick_runs: 30_000, thorough_runs: 2_000_000 },
